@@ -697,6 +697,10 @@ class Track(CollectionBase):
         Returns:
             Track
         """
+        if not self.geoshapes:
+            # Nothing to select from; an omitted bound has no shape to default to
+            return Track([])
+
         _start = default_to_zulu(
             val.start or self.geoshapes[0].start
         )
